@@ -926,8 +926,8 @@ theorem EmbH.toEmb (hs : List Spec.Name) : ∀ (e : Expr) (n : Node), EmbH hs e 
   | .float _ _, _, h => by simp [EmbH] at h
   | .me, _, h => by simp [EmbH] at h
   | .mcall o m as, _, h => by
-    obtain ⟨p, p', ps, rc, ops, nm, hnm, rfl, hops⟩ := h
-    exact ⟨p, p', ps, rc, ops, nm, hnm, rfl, EmbLH.toEmbL hs as ops hops⟩
+    obtain ⟨p, p', ps, rc, ops, nm, hnm, rfl, hops, hrc⟩ := h
+    exact ⟨p, p', ps, rc, ops, nm, hnm, rfl, EmbLH.toEmbL hs as ops hops, hrc⟩
   | .plist as, _, h => by
     obtain ⟨p, p', ops, rfl, hops⟩ := h
     exact ⟨p, p', ops, rfl, EmbLH.toEmbL hs as ops hops⟩
@@ -969,8 +969,8 @@ theorem EmbSH.toEmbS (hs : List Spec.Name) (s : Stmt) (n : Node) (h : EmbSH hs s
   | delete t => exact h
   | hilite t => exact h
   | mcall o m as =>
-    obtain ⟨p, q, q', ps, rc, ops, nm, hnm, rfl, hops⟩ := h
-    exact ⟨p, q, q', ps, rc, ops, nm, hnm, rfl, EmbLH.toEmbL hs as ops hops⟩
+    obtain ⟨p, q, q', ps, rc, ops, nm, hnm, rfl, hops, hrc⟩ := h
+    exact ⟨p, q, q', ps, rc, ops, nm, hnm, rfl, EmbLH.toEmbL hs as ops hops, hrc⟩
   | _ => simp [EmbSH] at h
 
 theorem EmbSsH.toEmbSs (hs : List Spec.Name) : ∀ (ss : List Stmt) (ns : List Node), EmbSsH hs ss ns → EmbSs ss ns
@@ -1503,7 +1503,7 @@ theorem objRef_ok (c : Spec.Ctx) (o : Expr) (hro : recvOk o = true) (s0 s1 : St)
     Ext s0 s1 ∧ (∀ i ∈ ref, i.opc ≠ 153) ∧ ∃ nm, mcallRecv o = some nm ∧
     ∀ (sF : St) (ctx : Lscr.Ctx), Ext s1 sF → Rel c sF ctx → ∀ (a : Nat) (st : PState), st.bpc = 6 →
       ∀ (res : Bool) (lp : Int) (ops rest : List Node), st.stack = .loadList (listName res) lp ops :: rest →
-        ∃ rc, runIs ctx a (ref ++ [.op2 0x58 k]) st
+        ∃ rc, RecvNode o nm rc ∧ runIs ctx a (ref ++ [.op2 0x58 k]) st
           = .ok (mcallResult st rest res ((a + codeSize ref : Nat) : Int) (mcallNode nm ((a + codeSize ref : Nat) : Int) res lp ops rc)) := by
   obtain ⟨nm, hnm, hid, _, hshape⟩ := recvOk_spec o hro
   rcases hshape with rfl | rfl | rfl
@@ -1527,7 +1527,7 @@ theorem objRef_ok (c : Spec.Ctx) (o : Expr) (hro : recvOk o = true) (s0 s1 : St)
         subst ho
         obtain ⟨q, hq⟩ := hrel.locals nm j hidx
         obtain ⟨i, rfl, hex⟩ := hrun c sF ctx hF hrel (a : Int) st hb
-        refine ⟨.none, ?_⟩
+        refine ⟨.none, rfl, ?_⟩
         rw [runIs_append, runIs_single, hex]
         simp only [Except.bind]
         rw [runIs_single, exec_mcall_loc ctx j nm q hq _ { st with stack := .leaf .const (.s (natStr (6 * j))) (a : Int) :: st.stack } hb res (a : Int) lp ops rest (by simp only [hs])]
@@ -1545,7 +1545,7 @@ theorem objRef_ok (c : Spec.Ctx) (o : Expr) (hro : recvOk o = true) (s0 s1 : St)
       intro sF ctx hF hrel a st hb res lp ops rest hs
       obtain ⟨j, q, rfl, hq⟩ := hrel.params nm off ho
       obtain ⟨i, rfl, hex⟩ := hrun c sF ctx hF hrel (a : Int) st hb
-      refine ⟨.none, ?_⟩
+      refine ⟨.none, rfl, ?_⟩
       rw [runIs_append, runIs_single, hex]
       simp only [Except.bind]
       rw [runIs_single, exec_mcall_param ctx j nm q hq _ { st with stack := .leaf .const (.s (natStr (6 * j))) (a : Int) :: st.stack } hb res (a : Int) lp ops rest (by simp only [hs])]
@@ -1560,7 +1560,7 @@ theorem objRef_ok (c : Spec.Ctx) (o : Expr) (hro : recvOk o = true) (s0 s1 : St)
     intro sF ctx hF hrel a st hb res lp ops rest hs
     have hnm' : ctx.names[i]? = some nm := by rw [hrel.names]; exact hF.name hget
     obtain ⟨nd, hnd, hex⟩ := exec_var46 ctx i nm hnm' (a : Int) st
-    refine ⟨nd, ?_⟩
+    refine ⟨nd, ⟨(a : Int), hnd⟩, ?_⟩
     rw [runIs_append, runIs_single, hex]
     simp only [Except.bind]
     rw [runIs_single, exec_mcall_var ctx nm nd (a : Int) hnd _ { st with stack := nd :: st.stack } res lp ops rest (by simp [hs])]
@@ -1574,7 +1574,7 @@ theorem mcall_core (res : Bool) (c : Spec.Ctx) (o : Expr) (m : Spec.Name) (as : 
     Ext s0 s1 ∧ (∀ i ∈ [Instr.op2 0x45 im] ++ ca ++ cn ++ ref ++ [.op2 0x58 k], i.opc ≠ 153) ∧ ∃ nm, mcallRecv o = some nm ∧
     ∀ (sF : St) (ctx : Lscr.Ctx), Ext s1 sF → Rel c sF ctx → ∀ (G : List Spec.Name), (∀ g ∈ Expr.varsList .glob as, g ∈ G) →
       ∀ (a : Nat) (st : PState), st.bpc = 6 → GvOk G st.gvars →
-        ∃ ns gv' rc lp, EmbLH c.handlers as ns ∧ GvNext G st.gvars gv' ∧
+        ∃ ns gv' rc lp, EmbLH c.handlers as ns ∧ RecvNode o nm rc ∧ GvNext G st.gvars gv' ∧
           runIs ctx a ([Instr.op2 0x45 im] ++ ca ++ cn ++ ref ++ [.op2 0x58 k]) st
             = .ok (mcallResult { st with gvars := gv' } st.stack res ((a + codeSize ([Instr.op2 0x45 im] ++ ca ++ cn ++ ref) : Nat) : Int)
                 (.callFn (.s nm) ((a + codeSize ([Instr.op2 0x45 im] ++ ca ++ cn ++ ref) : Nat) : Int)
@@ -1606,10 +1606,10 @@ theorem mcall_core (res : Bool) (c : Spec.Ctx) (o : Expr) (m : Spec.Name) (as : 
     rw [this, List.drop_append_of_le_length (by simp; omega), List.drop_of_length_le (by simp; omega), List.nil_append]
   have e2 := hiex ctx ((a + 2 + codeSize ca : Nat) : Int) { st with stack := ns.reverse ++ .sym (.s m) (a : Int) true :: st.stack, gvars := gv1 } hle
   simp only [htake, hdrop] at e2
-  obtain ⟨rc, hr3⟩ := hrun3 sF ctx hF hrel (a + 2 + codeSize ca + i.size)
+  obtain ⟨rc, hrc, hr3⟩ := hrun3 sF ctx hF hrel (a + 2 + codeSize ca + i.size)
     { st with stack := .loadList (listName res) ((a + 2 + codeSize ca : Nat) : Int) (ns.reverse ++ [.sym (.s m) (a : Int) true]) :: st.stack, gvars := gv1 } hb
     res _ _ st.stack rfl
-  refine ⟨ns, gv1, rc, ((a + 2 + codeSize ca : Nat) : Int), hemb, hgv1, ?_⟩
+  refine ⟨ns, gv1, rc, ((a + 2 + codeSize ca : Nat) : Int), hemb, hrc, hgv1, ?_⟩
   have hcode : [Instr.op2 0x45 im] ++ ca ++ [i] ++ ref ++ [Instr.op2 0x58 k] = [Instr.op2 0x45 im] ++ (ca ++ ([i] ++ (ref ++ [Instr.op2 0x58 k]))) := by simp
   rw [hcode, runIs_append, runIs_single, e1]
   simp only [Except.bind]
@@ -1625,6 +1625,39 @@ theorem mcall_core (res : Bool) (c : Spec.Ctx) (o : Expr) (m : Spec.Name) (as : 
   rw [hsz3]
   simp only [mcallNode, clearHash_snoc, mcallResult]
 
+
+/-! #### the peek / discard opcodes of `repeat with x in l` (64 k, 65 n) -/
+
+theorem pyGet_reverse {α} (l : List α) (k : Nat) (x : α) (h : l[k]? = some x) :
+    pyGet l.reverse ((l.length : Int) - 1 - (k : Int)) = .ok x := by
+  have hk : k < l.length := by
+    rcases Nat.lt_or_ge k l.length with h' | h'
+    · exact h'
+    · rw [List.getElem?_eq_none h'] at h; cases h
+  have e : (l.length : Int) - 1 - (k : Int) = ((l.length - 1 - k : Nat) : Int) := by omega
+  rw [e]
+  apply pyGet_some
+  rw [List.getElem?_reverse (by omega)]
+  have : l.length - 1 - (l.length - 1 - k) = k := by omega
+  rw [this, h]
+
+/-- opcode 64 k (CopySymbol): push a copy of the k-th node from the top -/
+theorem exec_peek (ctx : Lscr.Ctx) (k : Nat) (a : Int) (st : PState) (x : Node) (hx : st.stack[k]? = some x) :
+    execI ctx (.op2 0x64 k) a st = .ok { st with stack := x :: st.stack } := by
+  have hl : Opcodes.opcodes.lookup 0x64 = some { cls := "CopySymbolOpcode", impl := "CopySymbolOpcode", nbytes := 2, kind := "param1", attrs := [] } := rfl
+  have hk : ¬ ("param1" = "bi" ∨ "param1" = "tri") := by decide
+  simp only [execI, hl, hk, if_false]
+  unfold process1
+  simp only [pyGet_reverse st.stack k x hx, Bind.bind, Except.bind, pure, Except.pure, PState.push]
+
+/-- opcode 65 n (DiscardSymbols) -/
+theorem exec_discard (ctx : Lscr.Ctx) (n : Nat) (a : Int) (st : PState) (h : n ≤ st.stack.length) :
+    execI ctx (.op2 0x65 n) a st = .ok { st with stack := st.stack.drop n } := by
+  have hl : Opcodes.opcodes.lookup 0x65 = some { cls := "DiscardSymbolsOpcode", impl := "DiscardSymbolsOpcode", nbytes := 2, kind := "param1", attrs := [] } := rfl
+  have hk : ¬ ("param1" = "bi" ∨ "param1" = "tri") := by decide
+  simp only [execI, hl, hk, if_false]
+  unfold process1
+  simp only [h, if_true]
 
 theorem vars_sub_left {G : List Spec.Name} {x y : List Spec.Name} (h : ∀ g ∈ x ++ y, g ∈ G) : ∀ g ∈ x, g ∈ G :=
   fun g hg => h g (List.mem_append_left _ hg)
@@ -1891,8 +1924,8 @@ theorem stack_lemma : ∀ (e : Expr), FragE e = true → ∀ (c : Spec.Ctx) (s0 
     obtain ⟨hext, hop, nm, hnm, hrun⟩ := mcall_core true c o m as hro s0 _ s3 s4 _ im ca cn ref k hn (args_lemma as hfl c _ _ ca ha) hna href
     refine ⟨hext, hop, ?_⟩
     intro sF ctx hF hrel G hG a st hb hgv
-    obtain ⟨ns, gv', rc, lp, hemb, hgv', hr⟩ := hrun sF ctx hF hrel G (fun g hg => hG g (by simp [Expr.vars, hg])) a st hb hgv
-    exact ⟨_, gv', ⟨_, _, _, rc, ns, nm, hnm, rfl, hemb⟩, hgv', by rw [hr]; rfl⟩
+    obtain ⟨ns, gv', rc, lp, hemb, hrc, hgv', hr⟩ := hrun sF ctx hF hrel G (fun g hg => hG g (by simp [Expr.vars, hg])) a st hb hgv
+    exact ⟨_, gv', ⟨_, _, _, rc, ns, nm, hnm, rfl, hemb, hrc⟩, hgv', by rw [hr]; rfl⟩
   | .plist as, hf, c, s0, s1, code, h => by
     simp only [FragE, Bool.and_eq_true] at hf
     replace hf := hf.1
@@ -3820,11 +3853,11 @@ theorem stmt_lemma (s : Stmt) (hf : FragS s = true) (c : Spec.Ctx) (hT : c.inTel
     obtain ⟨hext, hop, nm, hnm, hrun⟩ := mcall_core false c o m as hro s0 _ s3 s4 _ im ca cn ref k hn (args_lemma as hfl c _ _ ca ha) hna href
     refine ⟨hext, _, rfl, hop, ?_⟩
     intro sF ctx hF hrel G hG hP a st hb hgv
-    obtain ⟨ns, gv', rc, lp, hemb, hgv', hr⟩ := hrun sF ctx hF hrel G (fun g hg => hG g (by simp [Stmt.vars, hg])) a st hb hgv
+    obtain ⟨ns, gv', rc, lp, hemb, hrc, hgv', hr⟩ := hrun sF ctx hF hrel G (fun g hg => hG g (by simp [Stmt.vars, hg])) a st hb hgv
     refine ⟨.stmt ((a + codeSize ([Instr.op2 0x45 im] ++ ca ++ cn ++ ref) : Nat) : Int)
         (.callFn (.s nm) ((a + codeSize ([Instr.op2 0x45 im] ++ ca ++ cn ++ ref) : Nat) : Int)
           (.loadList (S "load_list") lp (ns.reverse ++ [.sym (.s m) (a : Int) false])) true false false rc),
-      gv', ⟨_, _, _, _, rc, ns, nm, hnm, rfl, hemb⟩, PlainStmt.call _ _ _ _ _ _ _ _, stmtIn_last a ([Instr.op2 0x45 im] ++ ca ++ cn ++ ref) _ _, hgv', ?_⟩
+      gv', ⟨_, _, _, _, rc, ns, nm, hnm, rfl, hemb, hrc⟩, PlainStmt.call _ _ _ _ _ _ _ _, stmtIn_last a ([Instr.op2 0x45 im] ++ ca ++ cn ++ ref) _ _, hgv', ?_⟩
     rw [hr]; rfl
   | _ => simp [FragS] at hf
 
